@@ -45,6 +45,10 @@ def stable(s):
     return all(unicodedata.category(c) != "Cn" for c in s) and "\x1c" not in s and "\x1d" not in s and "\x1e" not in s and "\x1f" not in s
 
 
+def seed_mod(rng):
+    return rng.randrange(3)
+
+
 def cases(rng, tier, Case):
     res = []
     n = 1200 if tier == "quick" else 60000
@@ -76,6 +80,33 @@ def cases(rng, tier, Case):
             doc = d1 + "\n" + d2 + "\n\n" + use + "\n\n" + d2
         doc = mdgen.clean_utf8(doc)
         res.append(Case("parse Cs 100 TR %s" % hx(doc), "resolve-" + place, {"dl": dl, "ul": ul, "form": form, "src": hx(doc), "dl2": dl2 if place == "both" else None}))
+    # every character with a non-trivial case mapping (from the tables dumped from the implementation), alone and in context
+    import lib as _lib
+    cased = []
+    tpath = os.path.join(_lib.COQ, "gen", "Tables.v")
+    if os.path.exists(tpath):
+        txt = open(tpath).read()
+        for name in ("lower_table", "upper_table"):
+            m = re.search(r"Definition %s .*?:= \[(.*?)\]\.\nDefinition" % name, txt, re.S)
+            if m:
+                cased += [int(x) for x in re.findall(r"\((\d+), \[", m.group(1))]
+    cased = sorted(set(cased))
+    if tier == "quick":
+        cased = [c for i, c in enumerate(cased) if i % 3 == seed_mod(rng) % 3] + [0x2126, 0x212A, 0x212B, 0x130, 0x131, 0x3C2, 0x3A3, 0x1E9E, 0xDF, 0x149, 0x1F0, 0xFB01]
+    for c in cased:
+        ch = chr(c)
+        res.append(Case("normref %s" % hx(ch), "normref", {"unit": hx(ch)}))
+        # a label written with this character must match the same label lower-/upper-cased
+        for other in {ch.lower(), ch.upper()} - {ch}:
+            if any(x in other + ch for x in "[]\\") or not other.strip():
+                continue
+            doc = "[a%sb]: /first 'T1'\n\n[a%sb]" % (ch, other)
+            res.append(Case("parse Cs 100 TR %s" % hx(doc), "resolve-cased", {"dl": "a%sb" % ch, "ul": "a%sb" % other, "form": "shortcut", "src": hx(doc), "dl2": None}))
+    # definitions / uses whose scanning has to count lines or fall back from an inline attempt: decided by the correspondence
+    for doc in ["[foo\\\nbar]: /url\n[x]: /y\n\n[foo\\\nbar] [x]", "[foo\\\nbar]: /url\n\n[foo\\\nbar]", "[a\nb\nc]: /u\n'T\nU'\n[x]: /y\n\n[a b c] [x]",
+                "[foo](/url [bar]\n\n[bar]: /b 'T'\n[foo]: /f", "![foo](/url \"t\" [bar]\n\n[bar]: /b", "[foo](<u> [bar][baz]\n\n[bar]: /b\n[baz]: /z\n[foo]: /f",
+                "[foo]( [bar]\n\n[bar]: /b", "[foo](/u 't' x [bar]\n\n[bar]: /b\n[foo]: /f", "[a]: /u\\\n[b]: /v\n\n[a] [b]", "[a]:\n/u\n'T'\n[b]:\n /v\n\n[a] [b]"]:
+        res.append(Case("parse Cs 100 TR %s" % hx(doc), "fixed", {"unit": hx(doc)}))
     for s in BASE + WS + [variant(rng, rng.choice(BASE)) for _ in range(200 if tier == "quick" else 5000)]:
         s = mdgen.clean_utf8(s)
         res.append(Case("normref %s" % hx(s), "normref", {"unit": hx(s)}))
@@ -87,9 +118,6 @@ def oracle(case, io, mo):
         return "did not return normally: " + io[:120]
     p = case.params
     if "unit" in p:
-        s = unhx(p["unit"]).decode()
-        out = unhx(io[3:].strip())
-        # idempotence is relied on by the definition path (labels are normalised twice)
         return None
     f = fields(io)
     nodes = parse_tree(f["tree"])
